@@ -95,9 +95,16 @@ C18KeeperSubAdditiveBound(i) == EpochOk(i) =>
    LET nd == Nd(i) IN LLe(LMulSeq(Owed(nd.st), E6),
                           LAdd(LAdd(LMulSeq(Owed(Nd(EpBase(i)).st), E6), LMulSeq(nd.st.single.vL, <<101, 9901>>)), LMulSeq(EpSlack(i), E6)))
 
+(* one trigger books no more than ONE accrual of the function over the time elapsed since the previous trigger on the    *)
+(* position (st.single0 = the real function at (P, r, dt)); with dt = 0 this is "zero when no time has elapsed"          *)
+PrevSettled(nd) == PrevStep(nd) /\ (Nd(nd.parent).a = "Open" \/ (IsStep(Nd(nd.parent)) /\ Nd(nd.parent).res.ok))
+ElapsedOk(nd) == StepOk(nd) /\ PrevSettled(nd) /\ Ok(nd.st.single0) /\ NonNeg(nd.st.single0) /\ LLe(LE18, LMul(nd.args.idxL, nd.args.ivL))
+C18KeeperElapsed(nd) == ElapsedOk(nd) =>
+   LLe(Owed(nd.st), LAdd(LAdd(Owed(Nd(nd.parent).st), nd.st.single0.vL), LAdd(LMulSmall(LMul(nd.args.PL, nd.args.ivL), 4), <<1>>)))
+
 Formulas == <<"Conf_Mono", "Conf_Split", "Conf_Tracker", "C18_NonNegative", "C18_ZeroAtZeroTime", "C18_Monotone",
               "C18_SubAdditiveExact", "C18_SubAdditiveBound", "C18_KeeperNonNegative", "C18_KeeperZeroTime",
-              "Conf_Epoch", "C18_KeeperSubAdditiveExact", "C18_KeeperSubAdditiveBound">>
+              "Conf_Epoch", "C18_KeeperSubAdditiveExact", "C18_KeeperSubAdditiveBound", "C18_KeeperElapsed">>
 Holds(f, i) ==
   LET nd == Nd(i) IN
   CASE f = "Conf_Mono" -> ConfMono(nd)
@@ -111,6 +118,7 @@ Holds(f, i) ==
     [] f = "C18_KeeperNonNegative" -> C18KeeperNonNegative(nd)
     [] f = "C18_KeeperZeroTime" -> C18KeeperZeroTime(nd)
     [] f = "Conf_Epoch" -> ConfEpoch(i)
+    [] f = "C18_KeeperElapsed" -> C18KeeperElapsed(nd)
     [] f = "C18_KeeperSubAdditiveExact" -> C18KeeperSubAdditiveExact(i)
     [] f = "C18_KeeperSubAdditiveBound" -> C18KeeperSubAdditiveBound(i)
 
@@ -132,7 +140,7 @@ EpochLong == Cardinality({i \in 1..NLog : EpochOk(i) /\ EpK(i) >= 2})
 ViaCount(v) == Cardinality({i \in 1..NLog : StepOk(Nd(i)) /\ Nd(i).args.via = v})
 Stats == PrintT(<<"STATS", [nodes |-> NLog, epochs2 |-> EpochLong, subUnitVault |-> SubUnitOf("vault"), subUnitLocker |-> SubUnitOf("locker"),
                            subUnitLend |-> SubUnitOf("lend"), subUnitBorrow |-> SubUnitOf("borrow"),
-                           viaRateUpdate |-> ViaCount("rate-update"), viaDeposit |-> ViaCount("deposit"), mono |-> Count(MonoChecked), monoStrict |-> Count(MonoStrict), splits |-> Count(SplitChecked),
+                           elapsedChecked |-> Count(ElapsedOk), viaRateUpdate |-> ViaCount("rate-update"), viaDeposit |-> ViaCount("deposit"), mono |-> Count(MonoChecked), monoStrict |-> Count(MonoStrict), splits |-> Count(SplitChecked),
                            splitsFloat |-> Count(SplitFloat), zeroTime |-> Count(ZeroTime), fnErrors |-> Count(Failed),
                            keeperSteps |-> Count(StepOk), keeperZeroDt |-> Count(KeeperZero), keeperGrew |-> Count(KeeperGrew)]>>)
 AllSeen == Stats /\ TLCGet("stats").distinct = NLog
